@@ -414,9 +414,14 @@ class CaseTimeout(Exception):
 class NestedRun(object):
     """Realise an NDesc on one of the hierarchical classes and run its history, recording."""
 
-    def __init__(self, desc, cls_name='HierarchicalMachine'):
+    def __init__(self, desc, cls_name='HierarchicalMachine', enum=False):
         self.d = desc
         self.cls_name = cls_name
+        self.enum = enum
+        self.member = {}        # path tuple -> Enum member (enum mode: one Enum class per sibling group)
+        self.member_path = {}   # Enum member -> full name
+        if enum:
+            self._make_enums()
         self.is_async = 'Async' in cls_name
         self.items = []
         self.counts = {}
@@ -436,40 +441,65 @@ class NestedRun(object):
             self.loop = None
 
     # -- construction ------------------------------------------------------------------------
+    def _make_enums(self):
+        """Enum states: the children of every state (and the root states) form an Enum class of their own, so two
+        classes on different levels share a member name whenever the description re-uses a segment name"""
+        from enum import Enum
+
+        def rec(nodes, pre):
+            if not nodes:
+                return
+            cls = Enum('E_' + ('_'.join(seg(i) for i in pre) or 'root'), [seg(n['name']) for n in nodes])
+            for n in nodes:
+                p = tuple(pre + [n['name']])
+                m = cls[seg(n['name'])]
+                self.member[p] = m
+                self.member_path[m] = pname(p)
+                rec(n['children'], pre + [n['name']])
+        rec(self.d.roots, [])
+
     def names(self, cbs):
         return [flat.cbname(self.d, c) for c in cbs]
 
-    def trans_def(self, ev, t):
-        return {'trigger': flat.ename(ev), 'source': pname(t['source']),
-                'dest': None if t['dest'] is None else pname(t['dest']),
+    def sref(self, path, scope=()):
+        """how a state is named in a definition: its (scope-relative) name, or its Enum member"""
+        if self.enum:
+            return self.member[tuple(scope) + tuple(path)]
+        return pname(path)
+
+    def trans_def(self, ev, t, scope=()):
+        return {'trigger': flat.ename(ev), 'source': self.sref(t['source'], scope),
+                'dest': None if t['dest'] is None else self.sref(t['dest'], scope),
                 'prepare': self.names(t['prepare']),
                 'conditions': self.names([c for c, tg in t['conds'] if tg]),
                 'unless': self.names([c for c, tg in t['conds'] if not tg]),
                 'before': self.names(t['before']), 'after': self.names(t['after'])}
 
-    def node_def(self, n):
-        nd = {'name': seg(n['name']), 'on_enter': self.names(n['on_enter']), 'on_exit': self.names(n['on_exit']),
+    def node_def(self, n, pre=()):
+        path = tuple(pre) + (n['name'],)
+        nd = {'name': (self.member[path] if self.enum else seg(n['name'])), 'on_enter': self.names(n['on_enter']), 'on_exit': self.names(n['on_exit']),
               'ignore_invalid_triggers': n['ignore']}
-        local = [self.trans_def(ev, t) for ev, ts in n['local'] for t in ts]
+        local = [self.trans_def(ev, t, path) for ev, ts in n['local'] for t in ts]
         if local:
             nd['transitions'] = local
         if n['children']:
-            kids = [self.node_def(c) for c in n['children']]
+            kids = [self.node_def(c, path) for c in n['children']]
+            child = (lambda i: self.member[path + (i,)]) if self.enum else seg
             if n['pkey']:
                 nd['parallel'] = kids
             else:
                 nd['children'] = kids
                 if len(n['initial']) == 1:
-                    nd['initial'] = seg(n['initial'][0])
+                    nd['initial'] = child(n['initial'][0])
                 elif n['initial']:
-                    nd['initial'] = [seg(i) for i in n['initial']]
+                    nd['initial'] = [child(i) for i in n['initial']]
         return nd
 
     def build(self, cls, extra):
         d = self.d
         kw = dict(model=self.model, states=[self.node_def(n) for n in d.roots],
                   transitions=[self.trans_def(ev, t) for ev, ts in d.events for t in ts],
-                  initial=pname(d.initial), send_event=False, auto_transitions=False,
+                  initial=self.sref(d.initial), send_event=False, auto_transitions=False,
                   ignore_invalid_triggers=d.ignore, queued=d.queued,
                   before_state_change=self.names(d.before_sc), after_state_change=self.names(d.after_sc),
                   prepare_event=self.names(d.prepare_event), finalize_event=self.names(d.finalize),
@@ -478,8 +508,16 @@ class NestedRun(object):
         return cls(**kw)
 
     # -- recording ---------------------------------------------------------------------------
+    def names_of(self, v):
+        """model.state with Enum members replaced by the full names of their states"""
+        if isinstance(v, (list, tuple)):
+            return [self.names_of(x) for x in v]
+        if self.enum and v in self.member_path:
+            return self.member_path[v]
+        return v
+
     def mask(self):
-        v = getattr(self.model, 'state', None)
+        v = self.names_of(getattr(self.model, 'state', None))
         m = 0
         try:
             for name in flatten(v):
@@ -568,7 +606,7 @@ class NestedRun(object):
         return r
 
     def state_value(self):
-        v = copy.deepcopy(getattr(self.model, 'state', None))
+        v = copy.deepcopy(self.names_of(getattr(self.model, 'state', None)))
         try:
             enc_sval(v)
         except Exception:
@@ -597,13 +635,13 @@ def _on_alarm(_sig, _frm):
     raise CaseTimeout()
 
 
-def run_guarded(desc, cls_name, seconds=60):
+def run_guarded(desc, cls_name, seconds=60, enum=False):
     """(run | None, error string | None): construction errors and hangs are reported, not raised"""
     old = signal.signal(signal.SIGALRM, _on_alarm)
     signal.alarm(seconds)
     r = None
     try:
-        r = NestedRun(desc, cls_name)
+        r = NestedRun(desc, cls_name, enum=enum)
         r.run()
         return r, None
     except CaseTimeout:
